@@ -28,7 +28,7 @@ theorem detN_zero (D : MatF R) : detN 0 D = 1 := by
 theorem detN_eyeM (n : Nat) : detN n (eyeM : MatF R) = 1 := by
   unfold detN; rw [MatF.toMatrix_eyeM, det_one]
 
-theorem toMatrix_diagM (n : Nat) (d : Nat → R) :
+theorem toMatrix_diagM_logdet (n : Nat) (d : Nat → R) :
     MatF.toMatrix n n (diagM d) = Matrix.diagonal (fun i : Fin n => d i.val) := by
   ext i j
   simp only [MatF.toMatrix_apply, diagM, Matrix.diagonal_apply, Fin.ext_iff]
@@ -43,7 +43,7 @@ theorem prod_fin_eq_list (n : Nat) (d : Nat → R) :
 
 theorem detN_diagM (n : Nat) (d : Nat → R) : detN n (diagM d) = ((List.range n).map d).prod := by
   unfold detN
-  rw [toMatrix_diagM, det_diagonal, prod_fin_eq_list]
+  rw [toMatrix_diagM_logdet, det_diagonal, prod_fin_eq_list]
 
 theorem detN_scalar (n : Nat) (s : R) : detN n (fun i j => if i = j then s else 0) = s ^ n := by
   have h : (fun i j => if i = j then s else 0 : MatF R) = diagM (fun _ => s) := rfl
